@@ -537,7 +537,7 @@ spifopt_parse(int argc, char *argv[])
             break;
         } else if (opt == SPIF_CHARPTR(argv[i])) {
             /* If it's not an option, skip it. */
-            if (*opt != '-') {
+            if (*opt != '-' || !opt[1]) {
                 NEXT_ARG();
             } else {
                 opt++;
